@@ -27,6 +27,10 @@ def run(ctx):
     ctx.guard(linkedset.check, ctx, 'C09-SETS')
     from . import c10 as _c10
     ctx.shared(_c10.access, ctx)            # where-clauses and navigation read attributes through Class.__getattr__
+    from . import c02 as _c02, c03 as _c03
+    from .common import AssocModel as _AM
+    ctx.shared(_c02.atomic, ctx, _AM(ctx.repo))    # a rejected relate / unrelate leaves both directions as they were: navigation stays the composition of the links
+    ctx.shared(_c03.shared, ctx)            # filters on a shared referential attribute read it through the getter chain formalize installs
     ctx.assume('equality of a result with the relational evaluation of a concrete model state is a runtime quantity and is not decided')
     ctx.assume('OrderedSet behaves as an insertion-ordered set (C17, not claimed)')
     return ('Abstract tables of apply_query_operators (operator kind -> stage) and WhereEqual (per-component match flags -> yield); '
